@@ -15,6 +15,10 @@ Open Scope N_scope.
 Theorem C06_constants_match_source :
   gen_c06_pseudoid_version = pseudoid_version /\
   gen_c06_authorised_via_key = k_authorised_via /\
+  (* the member is decoded by encoding/json into a string field (null leaves it, the empty string
+     names nobody), as MemberContent does for the auth rules *)
+  gen_c06_authorised_via_type = bs "string" /\
+  gen_c06_authorised_via_conditions = [bs "err != nil"; bs "c.AuthorisedVia != """""; bs "err != nil"] /\
   assoc_first (bs "MRoomMember") gen_spec_eventtypes = Some m_room_member /\
   assoc_first (bs "Join") gen_spec_eventtypes = Some k_join /\
   assoc_first (bs "Invite") gen_spec_eventtypes = Some k_invite /\
@@ -22,7 +26,7 @@ Theorem C06_constants_match_source :
   gen_c06_splitid_calls =
     [ (bs "VerifyEventSignatures", 36, bs "e.EventID()");
       (bs "VerifyEventSignatures", 64, bs "*e.StateKey()");
-      (bs "extractAuthorisedViaServerName", 64, bs "v.String()") ] /\
+      (bs "extractAuthorisedViaServerName", 64, bs "c.AuthorisedVia") ] /\
   (* the request: redacted event, origin_server_ts, needed server, the version's validity rule *)
   gen_c06_request_fields =
     [ (bs "Message", bs "redactedJSON"); (bs "AtTS", bs "e.OriginServerTS()");
@@ -246,6 +250,27 @@ Proof.
   exists (bs "1"), ex_invite_v1, ex_invite_lookalike.
   eexists. vm_compute. repeat split; reflexivity.
 Qed.
+
+(* ---- repair F49: with the member repeated, under a case variant, or followed by null, the server
+   demanded is the server of the user the auth rules read (RequiredSpec.auth_authoriser); concrete
+   instances of the family the harness walks (all versions, all positions) ---- *)
+Definition ex_join_with (content : string) : json := ex_json
+  ("{""type"":""m.room.member"",""sender"":""@alice:a.example"",""state_key"":""@alice:a.example"",""room_id"":""!r:a.example"",""origin_server_ts"":5,""content"":" ++ content ++ "}").
+Definition ex_needed (j : json) : option (list bytes) :=
+  match read_event j with Some e => required_servers (bs "10") (LDom (bs "a.example")) e | None => None end.
+Definition ex_auth (j : json) : auth_reading :=
+  match jget (bs "content") j with Some (JObj c) => auth_authoriser c | _ => AUnparseable end.
+
+Example authoriser_is_the_auth_rules_reading_examples :
+  let twice := ex_join_with "{""join_authorised_via_users_server"":""@x:x.example"",""join_authorised_via_users_server"":""@admin:v.example"",""membership"":""join""}" in
+  let variant := ex_join_with "{""Join_authorised_via_users_server"":""@admin:v.example"",""join_authorised_via_users_server"":""@x:x.example"",""membership"":""join""}" in
+  let nulled := ex_join_with "{""join_authorised_via_users_server"":""@admin:v.example"",""join_authorised_via_users_server"":null,""membership"":""join""}" in
+  let number := ex_join_with "{""join_authorised_via_users_server"":""@admin:v.example"",""join_authorised_via_users_server"":5,""membership"":""join""}" in
+  ex_auth twice = AUser (bs "@admin:v.example") /\ ex_needed twice = Some [bs "a.example"; bs "v.example"] /\
+  ex_auth variant = AUser (bs "@x:x.example") /\ ex_needed variant = Some [bs "a.example"; bs "x.example"] /\
+  ex_auth nulled = AUser (bs "@admin:v.example") /\ ex_needed nulled = Some [bs "a.example"; bs "v.example"] /\
+  ex_auth number = AUnparseable /\ ex_needed number = None.
+Proof. vm_compute. repeat split; reflexivity. Qed.
 
 Print Assumptions C06_constants_match_source.
 Print Assumptions validity_rule_per_version.
